@@ -106,11 +106,11 @@ def random_twcc(rng, base, ref, big=False):
         q = rng.random()
         if q < 0.4:
             ln = rng.choice([1, 2, 3, 5, 14, 40]) if not big else rng.choice([200, 300, 8191])
-            chunks.append(rl(rng.choice([0, 1, 1, 2]), ln))
+            chunks.append(rl(rng.choice([0, 1, 1, 2, 3 if rng.random() < 0.4 else 1]), ln))
         elif q < 0.7:
             chunks.append(vec("v1", [rng.choice([0, 1, 1]) for _ in range(14)]))
         else:
-            chunks.append(vec("v2", [rng.choice([0, 1, 1, 2]) for _ in range(7)]))
+            chunks.append(vec("v2", [rng.choice([0, 1, 1, 2, 3 if rng.random() < 0.4 else 2]) for _ in range(7)]))
     total = sum(c["len"] if c["t"] == "rl" else len(c["syms"]) for c in chunks)
     last = chunks[-1]["len"] if chunks[-1]["t"] == "rl" else len(chunks[-1]["syms"])
     count = total - rng.choice([0, 0, 0, 1, rng.randrange(last), last - 1])
@@ -240,6 +240,24 @@ def comp_script(rng, nsend):
     return {"target": "comp", "refbase": REFBASE, "steps": [e[2] for e in ev]}
 
 
+SSRC_TABLES = [None, None,
+               {1: 0x00010001, 2: 0x00020001, 3: 0x00030001, 9: 0x00090001},      # equal in the low 16 bits
+               {1: 0x00010000, 2: 0x00020000, 3: 0x00030000, 9: 0x00090000},      # low 16 bits all zero
+               {1: 0x7FFF0001, 2: 0x7FFF0002, 3: 0x7FFF0003, 9: 0x7FFF0009},      # equal in the high 16 bits
+               {1: 0x12345678, 2: 0x12355678, 3: 0x02345678, 9: 0x12345679}]
+
+
+def remap_ssrc(obj, table):
+    """The scripts name streams 1, 2, 3 (9: never bound); the wire carries the SSRCs of `table` instead."""
+    if table is None:
+        return obj
+    if isinstance(obj, dict):
+        return {k: (table.get(v, v) if k == "ssrc" and isinstance(v, int) else remap_ssrc(v, table)) for k, v in obj.items()}
+    if isinstance(obj, list):
+        return [remap_ssrc(x, table) for x in obj]
+    return obj
+
+
 def run(ctx):
     rng = random.Random(ctx.seed)
     q = ctx.quick
@@ -271,18 +289,18 @@ def run(ctx):
         run_batch(ctx, [{"target": "rtpfb", "refbase": REFBASE, "steps": b} for b in beh], "G-rtpfb-%d-%d-%d" % (base, n0, L), FB)
     # (T) seeded random long histories on both decoders
     ncc, nfb, ln = (12, 12, 60) if q else (300, 300, 150)
-    run_batch(ctx, [random_script(rng, "cc", ln) for _ in range(ncc)], "T-random-cc", CC)
-    run_batch(ctx, [random_script(rng, "rtpfb", ln) for _ in range(nfb)], "T-random-rtpfb", FB)
+    run_batch(ctx, [remap_ssrc(random_script(rng, "cc", ln), rng.choice(SSRC_TABLES)) for _ in range(ncc)], "T-random-cc", CC)
+    run_batch(ctx, [remap_ssrc(random_script(rng, "rtpfb", ln), rng.choice(SSRC_TABLES)) for _ in range(nfb)], "T-random-rtpfb", FB)
     # composition: every feedback the library's own generators emit for seeded send / arrival histories
     ncomp, nsend = (8, 150) if q else (150, 600)
-    run_batch(ctx, [comp_script(rng, nsend) for _ in range(ncomp)], "T-composition", FB)
+    run_batch(ctx, [remap_ssrc(comp_script(rng, nsend), rng.choice(SSRC_TABLES)) for _ in range(ncomp)], "T-composition", FB)
     ctx.assumptions += [
         "the TLA+ module FbDecode is the reading of the property: a TWCC packet declares Min(status count, symbols) statuses; "
         "every status with a delta (symbols 1, 2) consumes one delta whether or not the packet is remembered; symbol 3 and the "
         "RFC 8888 offset 0x1FFF mean 'received, arrival time unknown'; the recorded size is what the component stores at send "
         "time (adapter: header+size for TWCC packets, size for RFC 8888 packets; rtpfb: header+payload)",
         "the trace records each feedback packet as delivered by pion/rtcp v1.2.17 Marshal+Unmarshal; packets the wire parser "
-        "rejects are skipped (logged as parsed=false); symbol 3 (reserved) and two report blocks for one SSRC are not generated",
+        "rejects are skipped (logged as parsed=false); two report blocks for one SSRC are not generated",
         "arrival times are compared as microsecond offsets: TWCC exact, RFC 8888 +-1 us (NTP fixed point -> time.Time), "
         "composition: 125 us (TWCC tick rounding) resp. -17..+978 us (1/1024 s truncation) against the arrival given to the recorder",
         "gcc.SendSideBWE.WriteRTCP is not driven here (it only forwards to the adapter); concurrency of rtpfb.history is C10",
